@@ -332,7 +332,7 @@ pub fn map_op<const N: usize>(cx: &mut Cx, m: &mut MapN<N>, op: &MapOp) -> Strin
                 m.retain(|k, v| {
                     tick();
                     log(Ev::Call(0));
-                    let keep = (mask >> k.p.cls) & 1 == 1;
+                    let keep = mask.checked_shr(k.p.cls as u32).unwrap_or(0) & 1 == 1;
                     if keep {
                         v.val += *bump;
                     }
@@ -700,7 +700,7 @@ pub fn set_op<const N: usize>(cx: &mut Cx, s: &mut SetN<N>, op: &SetOp) -> Strin
                 s.retain(|k| {
                     tick();
                     log(Ev::Call(0));
-                    (mask >> k.p.cls) & 1 == 1
+                    mask.checked_shr(k.p.cls as u32).unwrap_or(0) & 1 == 1
                 })
             });
             "()".into()
